@@ -12,19 +12,14 @@ import (
 type bigInt = big.Int
 
 func (in *Interp) boundsCheck(i, n *Term, what string) {
-	ok := And(Cmp("bvsle", BV(64, 0), i), Cmp("bvslt", i, n))
-	if !in.branch(ok) {
+	ok := And(Cmp("bvsle", IX(0), i), Cmp("bvslt", i, n))
+	if !in.guard(ok) {
 		in.goPanic("index out of range: " + what)
 	}
 }
+// toInt64 converts an integer term of any Go integer type to the Int sort used for Go int.
 func toInt64(t *Term, signed bool) *Term {
-	if t.w == 64 {
-		return t
-	}
-	if signed {
-		return SExt(t, 64)
-	}
-	return ZExt(t, 64)
+	return BV2Int(t, signed)
 }
 
 func (in *Interp) load(p *PtrV) Value {
@@ -74,7 +69,7 @@ func (in *Interp) exec(fr *frame, ins ssa.Instruction) {
 		switch a := in.get(fr, x.X).(type) {
 		case *ArrObj:
 			n := x.X.Type().Underlying().(*types.Array).Len()
-			in.boundsCheck(idx, BV(64, n), "array index")
+			in.boundsCheck(idx, IX(n), "array index")
 			fr.loc[x] = a.node.Read(idx)
 		case *StructObj:
 			k, ok := constInt(idx)
@@ -94,15 +89,15 @@ func (in *Interp) exec(fr *frame, ins ssa.Instruction) {
 		n := toInt64(in.get(fr, x.Len).(*Term), true)
 		c := toInt64(in.get(fr, x.Cap).(*Term), true)
 		et := x.Type().Underlying().(*types.Slice).Elem()
-		if !in.branch(And(Cmp("bvsle", BV(64, 0), n), Cmp("bvsle", n, BV(64, 1<<40)))) {
+		if !in.guard(And(Cmp("bvsle", IX(0), n), Cmp("bvsle", n, IX(1<<40)))) {
 			in.goPanic("makeslice: len out of range in " + fr.fn.String())
 		}
-		if !in.branch(Cmp("bvsle", n, c)) {
+		if !in.guard(Cmp("bvsle", n, c)) {
 			in.goPanic("makeslice: cap out of range in " + fr.fn.String())
 		}
 		in.allocs = append(in.allocs, n)
 		if isScalar(et) {
-			fr.loc[x] = &SliceV{obj: &ArrObj{node: zeroArr(width(et)), ew: width(et)}, off: BV(64, 0), len: n, cap: c}
+			fr.loc[x] = &SliceV{obj: &ArrObj{node: zeroArr(width(et)), ew: width(et)}, off: IX(0), len: n, cap: c}
 		} else {
 			k, ok := constInt(n)
 			if !ok {
@@ -277,9 +272,15 @@ func (in *Interp) unop(fr *frame, x *ssa.UnOp) Value {
 		return Not(v.(*Term))
 	case token.SUB:
 		t := v.(*Term)
+		if t.w == SortInt {
+			return in.intResult(IArith("-", IntC(0), t))
+		}
 		return Bin("bvsub", BV(t.w, 0), t)
 	case token.XOR:
 		t := v.(*Term)
+		if t.w == SortInt {
+			return IArith("-", IArith("-", IntC(0), t), IntC(1))
+		}
 		return Bin("bvxor", t, BVbig(t.w, mask(t.w)))
 	}
 	in.unsupported("unop %s", x.Op)
@@ -317,7 +318,7 @@ func (in *Interp) valEq(a, b Value) *Term {
 		}
 		r := le
 		for i := 0; i < n; i++ {
-			k := BV(64, int64(i))
+			k := IX(int64(i))
 			r = And(r, Eq(x.node.Read(Bin("bvadd", x.off, k)), y.node.Read(Bin("bvadd", y.off, k))))
 		}
 		return r
@@ -367,13 +368,19 @@ func (in *Interp) binop(op token.Token, a, b Value, xt types.Type) Value {
 	if sa, ok := a.(*StrV); ok {
 		sb := b.(*StrV)
 		if op == token.ADD {
-			n := zeroArr(8).Copy(BV(64, 0), sa.node, sa.off, sa.len).Copy(sa.len, sb.node, sb.off, sb.len)
-			return &StrV{node: n, off: BV(64, 0), len: Bin("bvadd", sa.len, sb.len)}
+			n := zeroArr(8).Copy(IX(0), sa.node, sa.off, sa.len).Copy(sa.len, sb.node, sb.off, sb.len)
+			return &StrV{node: n, off: IX(0), len: Bin("bvadd", sa.len, sb.len)}
 		}
 		in.unsupported("string op %s", op)
 	}
 	x, y := a.(*Term), b.(*Term)
 	sg := isSigned(xt)
+	if x.w == SortInt {
+		return in.intBinop(op, x, y)
+	}
+	if isFloat(xt) {
+		return in.floatBinop(op, x, y, xt)
+	}
 	switch op {
 	case token.ADD:
 		return Bin("bvadd", x, y)
@@ -382,7 +389,7 @@ func (in *Interp) binop(op token.Token, a, b Value, xt types.Type) Value {
 	case token.MUL:
 		return Bin("bvmul", x, y)
 	case token.QUO, token.REM:
-		if !in.branch(Not(Eq(y, BV(y.w, 0)))) {
+		if !in.guard(Not(Eq(y, BV(y.w, 0)))) {
 			in.goPanic("integer divide by zero")
 		}
 		n := map[bool]map[token.Token]string{true: {token.QUO: "bvsdiv", token.REM: "bvsrem"}, false: {token.QUO: "bvudiv", token.REM: "bvurem"}}[sg][op]
@@ -404,7 +411,12 @@ func (in *Interp) binop(op token.Token, a, b Value, xt types.Type) Value {
 	case token.SHL, token.SHR:
 		// shift count: unsigned of any width; Go: count >= width gives 0 / sign
 		var cnt *Term
-		if y.w > x.w {
+		if y.w == SortInt {
+			if !in.guard(ICmp("<=", IntC(0), y)) {
+				in.goPanic("negative shift amount")
+			}
+			cnt = Ite(ICmp("<", y, IntC(int64(x.w))), Int2BV(y, x.w), BV(x.w, int64(x.w)))
+		} else if y.w > x.w {
 			big := Cmp("bvule", BV(y.w, int64(x.w)), y)
 			cnt = Ite(big, BV(x.w, int64(x.w)), Extract(y, x.w-1, 0))
 		} else {
@@ -463,13 +475,19 @@ func (in *Interp) convert(v Value, from, to types.Type) Value {
 	if t, ok := v.(*Term); ok {
 		tb, ok2 := tu.(*types.Basic)
 		if ok2 && tb.Info()&types.IsString != 0 {
-			// string(rune/byte): only ASCII range modelled
-			return &StrV{node: zeroArr(8).Store(BV(64, 0), Extract(t, 7, 0)), off: BV(64, 0), len: BV(64, 1)}
+			// string(rune/byte)
+			return in.runeToString(BV2Int(t, isSigned(from)))
 		}
-		if ok2 && tb.Info()&types.IsFloat != 0 || fu.(*types.Basic).Info()&types.IsFloat != 0 {
-			in.unsupported("float conversion")
+		if isFloat(to) || isFloat(from) {
+			return in.floatConvert(t, from, to)
 		}
 		w := width(to)
+		if w == SortInt {
+			return BV2Int(t, isSigned(from))
+		}
+		if t.w == SortInt {
+			return Int2BV(t, w)
+		}
 		if w < t.w {
 			return Extract(t, w-1, 0)
 		}
@@ -478,19 +496,157 @@ func (in *Interp) convert(v Value, from, to types.Type) Value {
 		}
 		return ZExt(t, w)
 	}
+	_ = fu
 	switch x := v.(type) {
-	case *StrV: // string -> []byte
-		if _, ok := tu.(*types.Slice); ok {
-			return &SliceV{obj: &ArrObj{node: x.node, ew: 8}, off: x.off, len: x.len, cap: x.len}
+	case *StrV:
+		if sl, ok := tu.(*types.Slice); ok {
+			if width(sl.Elem()) == 8 { // string -> []byte
+				return &SliceV{obj: &ArrObj{node: x.node, ew: 8}, off: x.off, len: x.len, cap: x.len}
+			}
+			return in.stringToRunes(x)
 		}
 		return x
-	case *SliceV: // []byte -> string
+	case *SliceV:
 		if _, ok := tu.(*types.Basic); ok {
-			return &StrV{node: x.obj.node, off: x.off, len: x.len}
+			if x.obj.ew == 8 { // []byte -> string
+				return &StrV{node: x.obj.node, off: x.off, len: x.len}
+			}
+			return in.runesToString(x)
 		}
 		return x
 	}
 	return v
+}
+
+// intResult discharges the no-overflow obligation of an int arithmetic result.
+func (in *Interp) intResult(r *Term) *Term {
+	if r.IsConst() || r.fitsInt64() {
+		if r.IsConst() && (r.c.Cmp(minInt64) < 0 || r.c.Cmp(maxInt64) > 0) {
+			in.unsupported("constant int overflow")
+		}
+		return r
+	}
+	ok := And(ICmp("<=", IntBig(minInt64), r), ICmp("<=", r, IntBig(maxInt64)))
+	if !in.guard(ok) {
+		in.unsupported("int arithmetic may wrap around (outside the Int encoding)")
+	}
+	return r
+}
+
+func pow2(k int) *Term { return IntBig(new(big.Int).Lsh(big.NewInt(1), uint(k))) }
+
+func (in *Interp) intBinop(op token.Token, x, y *Term) Value {
+	switch op {
+	case token.ADD:
+		return in.intResult(IArith("+", x, coerceInt(y)))
+	case token.SUB:
+		return in.intResult(IArith("-", x, coerceInt(y)))
+	case token.MUL:
+		return in.intResult(IArith("*", x, coerceInt(y)))
+	case token.QUO, token.REM:
+		y = coerceInt(y)
+		if !in.guard(Not(Eq(y, IntC(0)))) {
+			in.goPanic("integer divide by zero")
+		}
+		var q *Term
+		if y.IsConst() && y.c.Sign() > 0 && x.nonNeg() {
+			q = IArith("div", x, y)
+		} else {
+			// Go truncates toward zero
+			ax := Ite(ICmp("<=", IntC(0), x), x, IArith("-", IntC(0), x))
+			ay := Ite(ICmp("<=", IntC(0), y), y, IArith("-", IntC(0), y))
+			aq := IArith("div", ax, ay)
+			neg := Not(Eq(ICmp("<", x, IntC(0)), ICmp("<", y, IntC(0))))
+			q = Ite(neg, IArith("-", IntC(0), aq), aq)
+		}
+		if op == token.QUO {
+			return q
+		}
+		if y.IsConst() && y.c.Sign() > 0 && x.nonNeg() {
+			return IArith("mod", x, y)
+		}
+		return IArith("-", x, IArith("*", y, q))
+	case token.LSS:
+		return ICmp("<", x, coerceInt(y))
+	case token.LEQ:
+		return ICmp("<=", x, coerceInt(y))
+	case token.GTR:
+		return ICmp("<", coerceInt(y), x)
+	case token.GEQ:
+		return ICmp("<=", coerceInt(y), x)
+	case token.SHL, token.SHR:
+		var k int
+		ok := false
+		if y.IsConst() {
+			k, ok = int(y.Int()), true
+			if y.w != SortInt {
+				k = int(y.Uint())
+			}
+		}
+		if ok && k >= 0 && k < 63 {
+			if op == token.SHL {
+				return in.intResult(IArith("*", x, pow2(k)))
+			}
+			return IArith("div", x, pow2(k)) // floor division = arithmetic shift
+		}
+	case token.AND:
+		y = coerceInt(y)
+		for _, p := range [][2]*Term{{x, y}, {y, x}} {
+			if p[1].IsConst() && p[0].nonNeg() {
+				m := new(big.Int).Add(p[1].c, big.NewInt(1))
+				if m.Sign() > 0 && new(big.Int).And(m, p[1].c).Sign() == 0 { // mask 2^k-1
+					return IArith("mod", p[0], IntBig(m))
+				}
+			}
+		}
+	case token.OR:
+		// (a * 2^k) | b with 0 <= b < 2^k
+		y = coerceInt(y)
+		for _, p := range [][2]*Term{{x, y}, {y, x}} {
+			if p[0].op == "*" && p[0].args[1].IsConst() && p[0].nonNeg() {
+				lo, hi := p[1].bounds()
+				if lo != nil && hi != nil && lo.Sign() >= 0 && hi.Cmp(p[0].args[1].c) < 0 {
+					c := p[0].args[1].c
+					if new(big.Int).And(c, new(big.Int).Sub(c, big.NewInt(1))).Sign() == 0 {
+						return in.intResult(IArith("+", p[0], p[1]))
+					}
+				}
+			}
+		}
+	}
+	// general fallback: through 64-bit vectors
+	bx, by := Int2BV(x, 64), y
+	if by.w == SortInt {
+		by = Int2BV(by, 64)
+	}
+	switch op {
+	case token.AND:
+		return BV2Int(Bin("bvand", bx, by), true)
+	case token.OR:
+		return BV2Int(Bin("bvor", bx, by), true)
+	case token.XOR:
+		return BV2Int(Bin("bvxor", bx, by), true)
+	case token.AND_NOT:
+		return BV2Int(Bin("bvand", bx, Bin("bvxor", by, BVbig(64, mask(64)))), true)
+	case token.SHL, token.SHR:
+		var cnt *Term
+		if y.w == SortInt {
+			if !in.guard(ICmp("<=", IntC(0), y)) {
+				in.goPanic("negative shift amount")
+			}
+			cnt = Ite(ICmp("<", y, IntC(64)), Int2BV(y, 64), BV(64, 64))
+		} else if y.w > 64 {
+			in.unsupported("shift count width")
+		} else {
+			cnt = ZExt(y, 64)
+		}
+		if op == token.SHL {
+			return BV2Int(Bin("bvshl", bx, cnt), true)
+		}
+		return BV2Int(Bin("bvashr", bx, cnt), true)
+	}
+	in.unsupported("int binop %s", op)
+	return nil
 }
 
 func (in *Interp) typeAssert(fr *frame, x *ssa.TypeAssert) Value {
@@ -534,9 +690,9 @@ func (in *Interp) indexAddr(fr *frame, x *ssa.IndexAddr) Value {
 			// case split on the concrete position
 			conds := make([]*Term, a.len+1)
 			for i := 0; i < a.len; i++ {
-				conds[i] = Eq(idx, BV(64, int64(i)))
+				conds[i] = Eq(idx, IX(int64(i)))
 			}
-			conds[a.len] = Not(And(Cmp("bvsle", BV(64, 0), idx), Cmp("bvslt", idx, BV(64, int64(a.len)))))
+			conds[a.len] = Not(And(Cmp("bvsle", IX(0), idx), Cmp("bvslt", idx, IX(int64(a.len)))))
 			k = in.choose(conds)
 			if k == a.len {
 				in.goPanic("index out of range (generic slice) in " + fr.fn.String())
@@ -553,7 +709,7 @@ func (in *Interp) indexAddr(fr *frame, x *ssa.IndexAddr) Value {
 		switch arr := a.cell.v.(type) {
 		case *ArrObj:
 			n := x.X.Type().Underlying().(*types.Pointer).Elem().Underlying().(*types.Array).Len()
-			in.boundsCheck(idx, BV(64, n), "array index")
+			in.boundsCheck(idx, IX(n), "array index")
 			return &PtrV{arr: arr, idx: idx}
 		case *StructObj:
 			k, ok := constInt(idx)
@@ -575,23 +731,23 @@ func (in *Interp) slice(fr *frame, x *ssa.Slice) Value {
 		return toInt64(in.get(fr, v).(*Term), isSigned(v.Type()))
 	}
 	chk := func(lo, hi, max *Term) {
-		ok := And(And(Cmp("bvsle", BV(64, 0), lo), Cmp("bvsle", lo, hi)), Cmp("bvsle", hi, max))
-		if !in.branch(ok) {
+		ok := And(And(Cmp("bvsle", IX(0), lo), Cmp("bvsle", lo, hi)), Cmp("bvsle", hi, max))
+		if !in.guard(ok) {
 			in.goPanic("slice bounds out of range in " + fr.fn.String())
 		}
 	}
 	switch a := in.get(fr, x.X).(type) {
 	case *StrV:
-		lo, hi := opt(x.Low, BV(64, 0)), opt(x.High, a.len)
+		lo, hi := opt(x.Low, IX(0)), opt(x.High, a.len)
 		chk(lo, hi, a.len)
 		return &StrV{node: a.node, off: Bin("bvadd", a.off, lo), len: Bin("bvsub", hi, lo)}
 	case *SliceV:
-		lo, hi := opt(x.Low, BV(64, 0)), opt(x.High, a.len)
+		lo, hi := opt(x.Low, IX(0)), opt(x.High, a.len)
 		chk(lo, hi, a.cap)
 		return &SliceV{obj: a.obj, off: Bin("bvadd", a.off, lo), len: Bin("bvsub", hi, lo), cap: Bin("bvsub", a.cap, lo)}
 	case *SliceG:
-		lo, ok1 := constInt(opt(x.Low, BV(64, 0)))
-		hi, ok2 := constInt(opt(x.High, BV(64, int64(a.len))))
+		lo, ok1 := constInt(opt(x.Low, IX(0)))
+		hi, ok2 := constInt(opt(x.High, IX(int64(a.len))))
 		if !ok1 || !ok2 {
 			in.unsupported("symbolic bounds on slice of non-scalars")
 		}
@@ -602,13 +758,13 @@ func (in *Interp) slice(fr *frame, x *ssa.Slice) Value {
 	case *PtrV: // pointer to array
 		switch arr := a.cell.v.(type) {
 		case *ArrObj:
-			n := BV(64, x.X.Type().Underlying().(*types.Pointer).Elem().Underlying().(*types.Array).Len())
-			lo, hi := opt(x.Low, BV(64, 0)), opt(x.High, n)
+			n := IX(x.X.Type().Underlying().(*types.Pointer).Elem().Underlying().(*types.Array).Len())
+			lo, hi := opt(x.Low, IX(0)), opt(x.High, n)
 			chk(lo, hi, n)
 			return &SliceV{obj: arr, off: lo, len: Bin("bvsub", hi, lo), cap: Bin("bvsub", n, lo)}
 		case *StructObj:
-			lo, _ := constInt(opt(x.Low, BV(64, 0)))
-			hi, _ := constInt(opt(x.High, BV(64, int64(len(arr.f)))))
+			lo, _ := constInt(opt(x.Low, IX(0)))
+			hi, _ := constInt(opt(x.High, IX(int64(len(arr.f)))))
 			cells := arr.f
 			return &SliceG{cells: &cells, off: lo, len: hi - lo, cap: len(arr.f) - lo}
 		}
